@@ -7,6 +7,8 @@ mod entry;
 mod subscriber;
 mod transaction;
 
+#[cfg(eyeball_verif)]
+pub use self::subscriber::verif_hooks;
 pub use self::{
     entry::{ObservableVectorEntries, ObservableVectorEntry},
     subscriber::{VectorSubscriber, VectorSubscriberBatchedStream, VectorSubscriberStream},
